@@ -27,8 +27,8 @@ ID = 'C08'
 
 MANIFEST = dict(
     technique='explicit-state exploration of all page-processing histories on long-lived real PageDecoder / PageParser objects x decoder configurations; differential oracle against a fresh instance; parallel mode modelled as share-nothing deep copies over all task assignments, plus a real multi-process conformance run',
-    text='Bounded exhaustive: every history of up to 3 (quick) / 4 (thorough) pages over an 8-page alphabet (6 core pages beyond depth 2) on one PageDecoder in 21 configurations (greedy, beam, beam+LM and beam-1+LM with and without carried state x confidence threshold None/0.5/0) and over a 5-page image alphabet on one PageParser in 4 configurations; the last page of every history must come out exactly as from a fresh instance (transcriptions, confidences, logits). Every assignment of every 3-page batch to two fork-time copies must equal the sequential run, and parse_folder --process-count 2 must write the same PAGE XML and line crops as --process-count 1 (model-free stage, as the tool supports). Added: beam-1 + LM configurations, a page that needs a beam of three prefixes and a page whose first frame has a single candidate (all histories of up to two pages include them); every history of up to three imports of PAGE documents whose lines carry no heights (the heights the loader derives must equal those of the document loaded on its own). Histories of pages through the model-free LINES_SIMPLE_THRESHOLD layout stage of one PageParser (sparse and densely traced region outlines). Added: two pages with a line that cannot be decoded (no logits; an LM primed from a kept line with an unknown character) in all PageDecoder histories of up to two pages; a run-length sweep (a 3-line and a 5-line page after n one-line pages for EVERY n up to 32 / 64, so that anything counted over the lifetime of the decoder passes every phase at every line of the last page); every history of up to 3 / 4 pages over a 7-page alphabet (text direction seen by a stub orientation network x baselines running right, left, down, up) through one PageParser with a LINE_FILTER stage in 2 configurations.',
-    note='OS scheduling of real worker processes is modelled (share-nothing copies), not explored; toy LM; the CNN layout engine\'s adaptive down-sampling state needs a trained network and is not covered.',
+    text='Bounded exhaustive: every history of up to 3 (quick) / 4 (thorough) pages over an 8-page alphabet (6 core pages beyond depth 2) on one PageDecoder in 21 configurations (greedy, beam, beam+LM and beam-1+LM with and without carried state x confidence threshold None/0.5/0) and over a 5-page image alphabet on one PageParser in 4 configurations; the last page of every history must come out exactly as from a fresh instance (transcriptions, confidences, logits). Every assignment of every 3-page batch to two fork-time copies must equal the sequential run, and parse_folder --process-count 2 must write the same PAGE XML and line crops as --process-count 1 (model-free stage, as the tool supports). Added: beam-1 + LM configurations, a page that needs a beam of three prefixes and a page whose first frame has a single candidate (all histories of up to two pages include them); every history of up to three imports of PAGE documents whose lines carry no heights (the heights the loader derives must equal those of the document loaded on its own). Histories of pages through the model-free LINES_SIMPLE_THRESHOLD layout stage of one PageParser (sparse and densely traced region outlines). Added: two pages with a line that cannot be decoded (no logits; an LM primed from a kept line with an unknown character) in all PageDecoder histories of up to two pages; a run-length sweep (a 3-line and a 5-line page after n one-line pages for EVERY n up to 32 / 64, so that anything counted over the lifetime of the decoder passes every phase at every line of the last page); every history of up to 3 / 4 pages over a 7-page alphabet (text direction seen by a stub orientation network x baselines running right, left, down, up) through one PageParser with a LINE_FILTER stage in 2 configurations. Added (wave 11): every history of up to 2 / 3 pages over a 4-page alphabet around the width limit of the OCR engine (an ordinary page, the longest line that still fits, the shortest line that is cut, a line far over the limit next to a short one) on one PageParser in 2 configurations - the last page must come out (transcriptions, confidences, logits) as from a fresh parser; and the interpreter start as an environment answer: four pages whose lines have exactly tied best hypotheses (2-way and 4-way, 4 characters) x 4 decoder configurations x 2 thresholds, alone and in turn, decoded in one fresh interpreter per string-hash seed in {0,1,2,3} - every run must report the same transcriptions (which tied hypothesis wins is free, but not per run).',
+    note='OS scheduling of real worker processes is modelled (share-nothing copies), not explored; toy LM; the CNN layout engine\'s adaptive down-sampling state needs a trained network and is not covered; separate interpreter runs differ in their string-hash seed only, 4 seeds of 2^32 are enumerated.',
     ref='3/C08')
 
 LETTERS = ['a', 'b', '<BLANK>']
@@ -73,7 +73,40 @@ IMG_PAGES = {
 }
 IMG_IDS = sorted(IMG_PAGES)
 PARSER_CFGS = ['greedy', 'beam', 'beam_thr', 'lm_carry']
-BOUNDS = {'quick': dict(depth=3, pdepth=3, run=32, fdepth=3), 'thorough': dict(depth=4, pdepth=4, run=64, fdepth=4)}
+# pages for the width limit of the OCR engine (it takes at most 480 px per line of a full batch, i.e. 3840 px, and cuts what is longer): lines of
+# (y, x0, painted blocks, symbols at the start, symbols at the end); a line of n blocks gives a crop of 8n - 2 px, which the engine rounds up to a
+# multiple of 32 and pads by 2 x 32 px:  472 blocks -> 3840 px (the longest line that is NOT cut), 473 blocks -> 3872 px (the shortest that is),
+# 540 blocks -> far over the limit (its last symbols lie beyond the cut), next to a short line
+WIDE_PAGES = {
+    'n': [(10, 8, 6, ['a', '_', 'b', 'ab'], ['c'])],
+    'u': [(20, 8, 472, ['a', 'b'], ['c', 'a'])],
+    'v': [(20, 8, 473, ['b', 'a'], ['c', 'b'])],
+    'w': [(12, 8, 540, ['c', '_', 'a'], ['b', 'c']), (40, 30, 5, ['b'], ['a'])],
+}
+WIDE_IDS = sorted(WIDE_PAGES)
+WIDE_SIZE = (60, 3840)
+WIDE_CFGS = [0, 1]                    # indices into PARSER_CFGS
+# separate interpreter runs ("a resumed run", "a parallel worker"): what an interpreter draws when it starts - the seed of its string hashes, which
+# decides the iteration order of every set / dict of strings - is an answer of the environment; the same pages are decoded in one fresh interpreter
+# per seed.  Lines over four characters whose best hypotheses TIE exactly (two or four characters with the very same probabilities in a frame):
+# which of them is reported is the library's choice, but it has to be the same choice in every run
+RESUME_SEEDS = [0, 1, 2, 3]
+RLETTERS = ['a', 'b', 'c', 'd', '<BLANK>']
+RCHARS = ['a', 'b', 'c', 'd', '\u200b']
+RLINES = {
+    'U': ([[.90, .02, .02, .02, .04], [.02, .02, .02, .02, .92], [.02, .90, .02, .02, .04]], 'ab'),           # no tie
+    'Tab': ([[.44, .44, .01, .01, .10], [.02, .02, .02, .02, .92]], 'b'),                                     # a | b
+    'Tcd': ([[.01, .01, .44, .44, .10], [.02, .02, .02, .02, .92]], 'c'),                                     # c | d
+    'Tac': ([[.44, .01, .44, .01, .10]], 'c'),                                                                # a | c
+    'Tbd': ([[.01, .44, .01, .44, .10]], 'b'),                                                                # b | d
+    'T4': ([[.22, .22, .22, .22, .12]], 'd'),                                                                 # a | b | c | d
+    'T22': ([[.44, .44, .01, .01, .10], [.02, .02, .02, .02, .92], [.01, .01, .44, .44, .10]], 'bc'),         # ac | ad | bc | bd
+}
+RPAGES = {'t1': ['U', 'Tab', 'Tcd'], 't2': ['Tac', 'U', 'Tbd'], 't3': ['T4', 'T22', 'U'], 't4': ['T22', 'Tab', 'Tac', 'Tcd', 'Tbd']}
+RPAGE_IDS = sorted(RPAGES)
+RESUME_CFGS = ['greedy', 'beam', 'beam_constlm_carry', 'beam_lm_carry']
+RESUME_THRESHOLDS = [None, 0.5]
+BOUNDS = {'quick': dict(depth=3, pdepth=3, run=32, fdepth=3, wdepth=2), 'thorough': dict(depth=4, pdepth=4, run=64, fdepth=4, wdepth=3)}
 BOUNDS['replay'] = BOUNDS['quick']
 TMP = '/verif/.cache/tmp'
 REPO = os.path.abspath(os.environ.get('VERIF_REPO', '/repo'))
@@ -90,7 +123,10 @@ def setup(tier):
 
 def shards(tier):
     b = BOUNDS[tier]
-    out = [{'kind': 'smoke'}]       # the slowest single case first, so that it overlaps with the rest
+    out = [{'kind': 'smoke'}, {'kind': 'resume'}]       # the slowest single cases first, so that they overlap with the rest
+    for wc in WIDE_CFGS:
+        for first in range(len(WIDE_IDS)):
+            out.append({'kind': 'wide', 'cfg': wc, 'first': first})
     for dc in range(len(DEC_CFGS)):
         for th in range(len(THRESHOLDS)):
             for first in range(len(PAGE_IDS)):
@@ -162,6 +198,13 @@ def run_shard(shard, ctx, tier):
         for L in range(1, b['fdepth'] + 1):
             for rest in itertools.product(range(n), repeat=L - 1):
                 guarded_check(mod, {'filter': shard['cfg'], 'hist': [shard['first']] + list(rest)}, ctx)
+    elif shard['kind'] == 'wide':
+        n = len(WIDE_IDS)
+        for L in range(1, b['wdepth'] + 1):
+            for rest in itertools.product(range(n), repeat=L - 1):
+                guarded_check(mod, {'wide': shard['cfg'], 'hist': [shard['first']] + list(rest)}, ctx)
+    elif shard['kind'] == 'resume':
+        guarded_check(mod, {'resume': True, 'seeds': list(RESUME_SEEDS)}, ctx)
     elif shard['kind'] == 'import':
         n = len(IMPORT_IDS)
         for L in range(1, 4):
@@ -655,9 +698,166 @@ def check_filter(case, ctx):
         ctx.nontrivial(('filter', fc, tuple(hist)), 'line-filter-after-page-with-other-orientation-map')
 
 
+# ------------------------------------------------------------------ driver 6: lines around the width limit of the OCR engine
+def wide_page(pid):
+    from mc import pipeline
+    lines = [(y, x0, head + ['_'] * (n - len(head) - len(tail)) + tail) for y, x0, n, head, tail in WIDE_PAGES[pid]]
+    img, lay = pipeline.make_page(lines, size=WIDE_SIZE)
+    lay.id = pid
+    return img, lay
+
+
+def check_wide(case, ctx):
+    """'decoding it after any sequence of other pages ... gives the same result as decoding it alone, and processing the same page twice gives
+    identical output' for pages with a line at / just over / far over the width the OCR engine takes (what the engine does with such a line is
+    C07's business; here: it does the same to the page whatever the parser has seen before)"""
+    pc = case['wide']
+    hist = [WIDE_IDS[i] for i in case['hist']]
+
+    def process(parser, pid):
+        img, lay = wide_page(pid)
+        return page_result(parser.process_page(img, lay))
+    parser = make_parser(pc)
+    res = None
+    for pid in hist:
+        res = process(parser, pid)
+    fresh = process(make_parser(pc), hist[-1])
+    ctx.executed(len(hist) + 1)
+    ctx.state(('wide', pc, tuple(hist)))
+    ctx.outcome(('wide', pc, str(brief(res))))
+    if res != fresh:
+        n_res, n_fresh = [[None if x[3] is None else len(x[3]) for x in r] for r in (res, fresh)]
+        ctx.violation('result-independent-of-history', f'{ID}/PageParser/{PARSER_CFGS[pc]}/line-at-engine-width-limit/depends-on-history',
+                      f'parser {PARSER_CFGS[pc]}: page {hist[-1]!r} (lines of {[l[2] for l in WIDE_PAGES[hist[-1]]]} blocks; the engine takes 3840 px = 472 blocks) '
+                      f'after history {hist[:-1]} gives {brief(res)} with {n_res} logit frames, alone {brief(fresh)} with {n_fresh} logit frames')
+        return
+    over = {p for p in WIDE_IDS if any(l[2] > 472 for l in WIDE_PAGES[p])}
+    if len(hist) >= 2 and hist[-1] in over and hist[-2] in over:
+        ctx.nontrivial(('wide', pc, tuple(hist)), 'over-long-line-after-page-with-over-long-line')
+    # does the alphabet lie on both sides of the limit?  the symbols at the end of the longest line that fits come out, those of the over-long ones do not
+    if len(hist) == 1:
+        tail = ''.join(WIDE_PAGES[hist[0]][0][4])
+        text = fresh[0][1] or ''
+        if hist[0] == 'u' and text.endswith(tail):
+            ctx.tag('longest-line-that-fits-the-engine-is-read-to-its-end')
+        if hist[0] in over and not text.endswith(tail):
+            ctx.tag('over-long-line-is-cut')
+
+
+# ------------------------------------------------------------------ driver 7: the same pages in separate interpreter runs
+def make_resume_decoder(name, th):
+    from mc import stubs
+    from pero_ocr.document_ocr.page_parser import PageDecoder
+    from pero_ocr.decoding.decoders import GreedyDecoder, CTCPrefixLogRawNumpyDecoder
+    if name == 'greedy':
+        dec = GreedyDecoder(RLETTERS)
+    elif name == 'beam':
+        dec = CTCPrefixLogRawNumpyDecoder(RLETTERS, 4)
+    else:
+        dec = CTCPrefixLogRawNumpyDecoder(RLETTERS, 4, lm=stubs.make_lm_wrapper(2 if 'constlm' in name else 0, RLETTERS[:-1]), lm_scale=1.0)
+    return PageDecoder(dec, line_confidence_threshold=th, carry_h_over=name.endswith('carry'))
+
+
+def resume_page(pid):
+    from scipy import sparse
+    from pero_ocr.core.layout import PageLayout, RegionLayout, TextLine
+    page = PageLayout(id=pid, page_size=(100, 100))
+    reg = RegionLayout('r1', np.zeros((4, 2)))
+    for k, name in enumerate(RPAGES[pid]):
+        rows, text = RLINES[name]
+        M = np.log(np.asarray(rows, dtype=float))
+        reg.lines.append(TextLine(id=f'l{k}', logits=sparse.csc_matrix(M), characters=list(RCHARS), logit_coords=[0, M.shape[0]], transcription=text))
+    page.regions.append(reg)
+    return page
+
+
+def resume_child(out_path):
+    """runs in a fresh interpreter (its own string-hash seed): every page alone on a fresh decoder and all pages in turn on one decoder, per
+    configuration; writes {key: [[transcription, confidence], ...]} and which lines have several best hypotheses of exactly the same score"""
+    import json
+
+    def lines_of(page):
+        return [[l.transcription, None if l.transcription_confidence is None else float(l.transcription_confidence)] for l in page.lines_iterator()]
+    out, ties = {}, []
+    for name in RESUME_CFGS:
+        for ti, th in enumerate(RESUME_THRESHOLDS):
+            one = make_resume_decoder(name, th)
+            for pid in RPAGE_IDS:
+                for how, pd in (('alone', make_resume_decoder(name, th)), ('in-turn', one)):
+                    try:
+                        out[f'{name}|{ti}|{pid}|{how}'] = lines_of(pd.process_page(resume_page(pid)))
+                    except Exception as e:  # noqa - a run that fails where another one succeeds differs from it as well
+                        out[f'{name}|{ti}|{pid}|{how}'] = f'{type(e).__name__}: {e}'
+    try:
+        dec = make_resume_decoder('beam', None).decoder
+        for pid in RPAGE_IDS:
+            for l in resume_page(pid).lines_iterator():
+                totals = list(dec(l.get_full_logprobs()).total_scores())
+                if sum(1 for t in totals if t == max(totals)) > 1:
+                    ties.append(f'{pid}/{l.id}')
+    except Exception:  # noqa - only feeds the counter that says the alphabet has tied lines
+        pass
+    with open(out_path, 'w') as f:
+        json.dump({'results': out, 'ties': ties}, f)
+
+
+def check_resume(case, ctx):
+    """'decoding it ... in a resumed run or in a parallel worker gives the same result as decoding it alone', 'depend only on that page and the
+    configuration': the same pages, decoded by the same program in one fresh interpreter per hash seed, must come out the same in every run
+    (transcriptions exactly, confidences up to round-off)"""
+    import json
+    from mc.core import HarnessError
+    verif = os.path.dirname(os.path.dirname(os.path.abspath(__file__)))
+    os.makedirs(TMP, exist_ok=True)
+    seeds = list(case['seeds'])
+    code = (f'import sys; sys.path[0:0] = [{REPO!r}, {os.path.join(REPO, "user_scripts")!r}, {verif!r}]; '
+            'from props import c08_history as m; m.resume_child(sys.argv[1])')
+    procs = []
+    for sd in seeds:
+        path = os.path.join(TMP, f'c08-resume-{os.getpid()}-{sd}.json')
+        if os.path.exists(path):
+            os.remove(path)
+        env = dict(os.environ, PYTHONHASHSEED=str(sd), VERIF_REPO=REPO)
+        procs.append((sd, path, subprocess.Popen([sys.executable, '-B', '-c', code, path], env=env, stdout=subprocess.PIPE, stderr=subprocess.STDOUT, text=True)))
+    runs = {}
+    for sd, path, pr in procs:
+        log = pr.communicate(timeout=1800)[0]
+        if pr.returncode != 0 or not os.path.exists(path):
+            raise HarnessError(f'the interpreter with hash seed {sd} ended with rc {pr.returncode}: {log[-600:]}')
+        with open(path) as f:
+            runs[sd] = json.load(f)
+        os.remove(path)
+    ctx.executed(len(seeds))
+    ctx.state(('resume', tuple(seeds)))
+    ref = runs[seeds[0]]['results']
+    ctx.outcome(('resume', str(sorted(ref.items()))))
+
+    def same(a, b):
+        if isinstance(a, str) or isinstance(b, str):
+            return a == b
+        return len(a) == len(b) and all(x[0] == y[0] and ((x[1] is None and y[1] is None) or (x[1] is not None and y[1] is not None and abs(x[1] - y[1]) <= 1e-9))
+                                        for x, y in zip(a, b))
+    for sd in seeds[1:]:
+        got = runs[sd]['results']
+        for key in sorted(ref):
+            if key not in got or not same(ref[key], got[key]):
+                name, ti, pid, how = key.split('|')
+                ctx.violation('same-result-in-a-separate-run', f'{ID}/separate-interpreter-runs/{name}/result-differs-between-runs',
+                              f'decoder {name}, threshold {RESUME_THRESHOLDS[int(ti)]}: page {pid} {RPAGES[pid]} ({how}) is decoded to {got.get(key)} by an interpreter '
+                              f'started with string-hash seed {sd}, to {ref[key]} by one started with seed {seeds[0]} (same program, same page, same configuration)')
+                return
+    ctx.nontrivial(('resume', tuple(seeds)), 'pages-decoded-in-separate-interpreters')
+    if all(runs[sd]['ties'] for sd in seeds) and len(seeds) > 1:
+        ctx.tag('line-with-tied-best-hypotheses-in-separate-interpreters', len(runs[seeds[0]]['ties']))
+
+
 def check_case(case, ctx):
     if 'run' in case:
         return check_run(case, ctx)
+    if 'wide' in case:
+        return check_wide(case, ctx)
+    if 'resume' in case:
+        return check_resume(case, ctx)
     if 'filter' in case:
         return check_filter(case, ctx)
     if 'import' in case:
@@ -679,19 +879,26 @@ def describe(tier):
         'rule': 'all histories of up to depth pages (10-page alphabet up to depth 2 - two of the pages have a line that cannot be decoded -, its 6 core pages beyond) on one PageDecoder x 7 decoder configurations x 3 thresholds; '
                 'a 3-line and a 5-line page after n one-line pages for every n <= run x 7 decoder configurations x 2 thresholds; all histories of up to fdepth pages (7-page alphabet: '
                 'page colour = text direction seen by a stub orientation network, lines running right / left / down / up) on one PageParser with a LINE_FILTER stage x 2 configurations; all histories '
-                'of up to pdepth pages (5-page image alphabet) on one PageParser x 4 configurations; all 3-page batches x all assignments to 2 '
+                'of up to pdepth pages (5-page image alphabet) on one PageParser x 4 configurations; all histories of up to wdepth pages (4-page alphabet: lines at / just over / far over '
+                'the width the OCR engine takes) on one PageParser x 2 configurations; 4 pages with exactly tied best hypotheses x 4 decoder configurations x 2 thresholds decoded in one fresh '
+                'interpreter per string-hash seed (4 seeds), all runs compared; all 3-page batches x all assignments to 2 '
                 'deep-copied workers; 1 real parse_folder run with 2 processes. state = (configuration, carried last_line / LM state) resp. '
                 'recent history. Non-trivial: histories in which the predecessor page left LM context / had lines; assignments using both workers.',
         'bounds': BOUNDS[tier],
         'alphabets': {'pages': PAGES, 'lines': {k: v[1] for k, v in LINES.items()}, 'decoder_cfgs': DEC_CFGS,
                       'thresholds': [str(t) for t in THRESHOLDS], 'image_pages': {k: [l[2] for l in v] for k, v in IMG_PAGES.items()},
                       'parser_cfgs': PARSER_CFGS, 'run_pages': RUN_PAGES, 'run_last': RUN_LAST, 'run_fill': RUN_FILL,
-                      'filter_pages': {k: [v[0], v[1], [f'{a}{b}' for a, b in v[2]]] for k, v in FILTER_PAGES.items()}, 'filter_cfgs': FILTER_CFGS},
+                      'filter_pages': {k: [v[0], v[1], [f'{a}{b}' for a, b in v[2]]] for k, v in FILTER_PAGES.items()}, 'filter_cfgs': FILTER_CFGS,
+                      'wide_pages': {k: [l[2] for l in v] for k, v in WIDE_PAGES.items()}, 'wide_cfgs': [PARSER_CFGS[i] for i in WIDE_CFGS],
+                      'resume_pages': RPAGES, 'resume_cfgs': RESUME_CFGS, 'resume_seeds': RESUME_SEEDS},
         'assumptions': ['a Pool worker is a fork-time copy that shares nothing with the others (modelled by deepcopy)',
-                        'counters lines_examined / lines_decoded / seconds_decoding only feed decoding_summary()'],
+                        'counters lines_examined / lines_decoded / seconds_decoding only feed decoding_summary()',
+                        'what differs between two interpreter runs of the same program is the string-hash seed (fixed to 0 for the explorer itself)'],
         'min_nontrivial': 50,
         'required_tags': ['model-free-line-detection-after-other-pages', 'import-after-other-imports', 'predecessor-left-lm-context', 'same-page-twice', 'parser-history-with-predecessor', 'both-workers-used',
                           'real-multiprocess-run', 'predecessor-with-undecodable-line', 'context-of-page-with-undecodable-line-would-change-result',
                           'page-after-long-run-with-carried-lm-state', 'context-older-than-previous-line-matters',
-                          'line-filter-after-page-with-other-orientation-map'],
+                          'line-filter-after-page-with-other-orientation-map',
+                          'over-long-line-after-page-with-over-long-line', 'longest-line-that-fits-the-engine-is-read-to-its-end', 'over-long-line-is-cut',
+                          'pages-decoded-in-separate-interpreters', 'line-with-tied-best-hypotheses-in-separate-interpreters'],
     }
